@@ -8,7 +8,7 @@ from typing import Any
 import numpy as np
 
 from . import env, spec as S
-from .canon import cs, cv, fdec, fenc, fx
+from .canon import attrs, cs, cv, fdec, fenc, fx
 from .faults import Armed, FpTrap
 
 fl = env.fl
@@ -329,7 +329,7 @@ def gen_toggle_path(rng, spec: dict) -> list:
 # ---------------------------------------------------------------------------- snapshots
 def _term_snap(t) -> tuple:
     items = []
-    for k, v in vars(t).items():
+    for k, v in attrs(t).items():
         if k in ("engine", "root"):
             continue
         if isinstance(v, np.ndarray) or isinstance(v, list):
@@ -350,7 +350,7 @@ def _obj_snap(o) -> tuple:
         return ("None",)
     return (type(o).__name__,) + tuple((k, fx(v) if isinstance(v, (float, int)) and not isinstance(v, bool) else (
         "callable:" + getattr(v, "__qualname__", type(v).__name__) if callable(v) and not hasattr(v, "membership") else str(v)))
-                                       for k, v in sorted(vars(o).items()) if not k.startswith("_sim"))
+                                       for k, v in sorted(attrs(o).items()) if not k.startswith("_sim"))
 
 
 def snapshot(engine, flags: bool = True) -> tuple:
@@ -401,10 +401,11 @@ def outputs_of(engine) -> tuple:
 # ---------------------------------------------------------------------------- object graph
 def graph_problem(engine) -> str:
     """'' when every reference reachable from the engine stays inside the engine, else a description."""
-    vars_by_id = {id(v): v for v in engine.variables}
-    for v in engine.variables:
+    all_vars = list(engine.input_variables) + list(engine.output_variables)
+    vars_by_id = {id(v): v for v in all_vars}
+    for v in all_vars:
         for t in v.terms:
-            if (isinstance(t, (fl.Linear, fl.Function)) or "engine" in vars(t)) and t.engine is not engine:
+            if (isinstance(t, (fl.Linear, fl.Function)) or "engine" in attrs(t)) and t.engine is not engine:
                 return f"{type(t).__name__} term {v.name}.{t.name} references {'no' if t.engine is None else 'another'} engine"
     for ov in engine.output_variables:
         own = {id(t) for t in ov.terms}
@@ -673,10 +674,10 @@ def reachable_objects(engine) -> dict[int, str]:
                 stack.append((x, f"{path}[{k!r}]"))
             continue
         mod = getattr(type(o), "__module__", "") or ""
-        if mod.startswith(("fuzzylite", "simkit", "sims")) and hasattr(o, "__dict__") and not isinstance(o, type):
-            if vars(o):  # an object without attributes (Minimum(), General(), Very()) holds no state that could be shared
+        if mod.startswith(("fuzzylite", "simkit", "sims")) and not isinstance(o, type):
+            if attrs(o):  # an object without attributes (Minimum(), General(), Very()) holds no state that could be shared
                 seen[id(o)] = path
-            for k, x in vars(o).items():
+            for k, x in attrs(o).items():
                 if k == "_sim_fault":
                     continue
                 stack.append((x, f"{path}.{k}"))
